@@ -98,6 +98,8 @@ type Obligation struct {
 	prefixLen int
 	goal      string
 	isCover   bool // satisfiability expected (vacuity guard)
+	coverPre  *Obligation // cover of the state before (to tell a dead path from an inconsistent contract)
+	mustHold  bool        // an unsat answer is a failure (unless coverPre is unsat too)
 	run       *Run
 	Result    string
 	Solver    string
@@ -262,7 +264,8 @@ func (r *Run) typeInv(x string, t types.Type, st *State) string {
 		}
 	case *types.Pointer:
 		if isAggregate(u.Elem()) {
-			return app("<", x, st.frontier)
+			// the object (or the object it is part of) exists
+			return and(app("<", x, st.frontier), app("<=", "0", app("refbase", x)), app("<", app("refbase", x), st.frontier))
 		}
 		return and(app("<=", "0", x), app("<", x, st.frontier))
 	case *types.Map, *types.Chan, *types.Signature:
@@ -367,12 +370,14 @@ func (r *Run) heapWF(h, sort string, elemT types.Type, frontier string) {
 	case strings.HasPrefix(sort, "(Array Int (Array Int "):
 		inv := r.typeInvRefOnly(app("select", app("select", h, "x"), "i"), elemT, fst)
 		if inv != "true" {
-			r.assumeBG(fmt.Sprintf("(forall ((x Int) (i Int)) (! %s :pattern ((select (select %s x) i))))", inv, h))
+			r.assumeBG(fmt.Sprintf("(forall ((x Int) (i Int)) (! (=> (and (<= 0 (refbase x)) (< (refbase x) %s)) %s) :pattern ((select (select %s x) i))))", frontier, inv, h))
 		}
 	case strings.HasPrefix(sort, "(Array Int "):
 		inv := r.typeInvRefOnly(app("select", h, "x"), elemT, fst)
 		if inv != "true" {
-			r.assumeBG(fmt.Sprintf("(forall ((x Int)) (! %s :pattern ((select %s x))))", inv, h))
+			// only objects that exist (0 <= x < frontier) are constrained: the contents of unallocated references stay arbitrary
+			// (stores into objects a callee allocates are not part of its mod-set and show up there)
+			r.assumeBG(fmt.Sprintf("(forall ((x Int)) (! (=> (and (<= 0 (refbase x)) (< (refbase x) %s)) %s) :pattern ((select %s x))))", frontier, inv, h))
 		}
 	default:
 		r.assumeGlobal(r.typeInvRefOnly(h, elemT, fst))
